@@ -8,6 +8,7 @@ pub mod c10;
 pub mod c13;
 pub mod ident;
 pub mod limstress;
+pub mod oddcfg;
 pub mod codegen;
 pub mod router;
 pub mod rpc;
@@ -67,10 +68,12 @@ pub fn dispatch(args: &[String]) -> i32 {
         "replay-identity" => ident::replay(&a),
         "replay-codegen" => codegen::replay(&a),
         "codegen-cancel" => codegen::cancel(&a),
+        "codegen-deadline" => codegen::deadline(&a),
         "replay-router" => router::replay(&a),
         "replay-rate" => tower::replay_rate(&a),
         "rate-hint-probe" => tower::rate_hint_probe(&a),
         "limstress" => limstress::main(&a),
+        "oddcfg" => oddcfg::main(&a),
         "replay-towermisc" => towermisc::replay(&a),
         other => {
             eprintln!("unknown scenario {other}");
